@@ -4,6 +4,7 @@ package main
 
 import (
 	"fmt"
+	"regexp"
 	"go/types"
 	"strings"
 )
@@ -38,8 +39,17 @@ func newSorts(sc *Script, eng *Engine) *Sorts {
 	return &Sorts{sc: sc, eng: eng, structs: map[string]*structInfo{}, bySort: map[string]types.Type{}, boxes: map[string]bool{}, tagOf: map[string]int{}}
 }
 
+var aliasRe = regexp.MustCompile(`\b(byte|rune)\b`)
+
+// typeName: canonical short name of a type (byte and rune are aliases: []byte and []uint8 are one type).
 func (e *Engine) typeName(t types.Type) string {
-	return e.shorten(types.TypeString(t, nil))
+	s := e.shorten(types.TypeString(t, nil))
+	return aliasRe.ReplaceAllStringFunc(s, func(m string) string {
+		if m == "byte" {
+			return "uint8"
+		}
+		return "int32"
+	})
 }
 
 // SortOf returns the SMT sort of a Go type, declaring datatypes on demand.
